@@ -681,7 +681,12 @@ class GroupBy:
                 dtype = pd.ArrowDtype(arrow.type)
             else:
                 arr = arr.view(int)
-                dtype = orig_type
+                # values given as pyarrow arrays carry a pyarrow type, not a pandas dtype
+                dtype = (
+                    pd.ArrowDtype(orig_type)
+                    if isinstance(orig_type, pa.DataType)
+                    else orig_type
+                )
         else:
             dtype = None
         return pd.Series(
